@@ -103,7 +103,8 @@ fn base_vec(len: i64) -> Vec<COp> {
     // values chosen so that dedup / retain / dedup_by_key have something to do
     let vals: Vec<i64> = [2, 2, 3, 4, 4, 6].iter().cloned().take(len as usize).collect();
     let vals: Vec<i64> = if len >= 3 && len % 2 == 1 { vec![4, 2, 3, 3, 6, 5].into_iter().take(len as usize).collect() } else { vals };
-    vec![COp::NewVec { v: 1, cap: 2 }, COp::Push { v: 1, val: 50 }, COp::FromIter { v: 0, vals }]
+    // (a box in slot 1 so that the box operations of the alphabet have something to act on)
+    vec![COp::NewVec { v: 1, cap: 2 }, COp::Push { v: 1, val: 50 }, COp::BoxNew { b: 1, val: 60 }, COp::FromIter { v: 0, vals }]
 }
 
 /// length-1 programs: every op with every argument on vectors of length 0..=maxlen;
